@@ -25,6 +25,7 @@ type c10Case struct {
 	Backend string // memfs | mapfs | native
 	Prime   bool   // a default-flag run first, then perturbations, then the run under test
 	Perturb []string
+	Links   []string `json:",omitempty"` // native backend: these files (configs and artifacts) are symbolic links to files kept elsewhere
 }
 
 func runBackend(d *core.Dir, backend string, flags int) (core.RunResult, error) {
@@ -36,6 +37,13 @@ func runBackend(d *core.Dir, backend string, flags int) (core.RunResult, error) 
 		return core.RunNative(d, flags)
 	}
 	return core.Run(d, flags), nil
+}
+
+func (c *c10Case) run(d *core.Dir, flags int) (core.RunResult, error) {
+	if c.Backend == "native" && len(c.Links) > 0 {
+		return core.RunNativeLinks(d, flags, c.Links)
+	}
+	return runBackend(d, c.Backend, flags)
 }
 
 // allowedWrites maps the change list to the only paths a run may touch.
@@ -56,7 +64,7 @@ func checkC10(c c10Case) (*core.Failure, string) {
 		return fmt.Sprintf("flags=%05b backend=%s prime=%v perturb=%v\n%v", c.Flags, c.Backend, c.Prime, c.Perturb, w.Texts())
 	}
 	if c.Prime {
-		if res, err := runBackend(d, c.Backend, core.FlagDefault); err != nil || !res.OK() {
+		if res, err := c.run(d, core.FlagDefault); err != nil || !res.OK() {
 			return nil, "prime-failed"
 		}
 		for _, p := range c.Perturb {
@@ -87,7 +95,7 @@ func checkC10(c c10Case) (*core.Failure, string) {
 		}
 	}
 	before := d.Clone()
-	res1, err := runBackend(d, c.Backend, c.Flags)
+	res1, err := c.run(d, c.Flags)
 	if err != nil {
 		return nil, "harness-io"
 	}
@@ -123,7 +131,7 @@ func checkC10(c c10Case) (*core.Failure, string) {
 	// every config/profile/bystander byte-identical (implied by the diff rule, asserted for clarity)
 	// second run: same flags, nothing touched
 	snap := d.Clone()
-	res2, err := runBackend(d, c.Backend, c.Flags)
+	res2, err := c.run(d, c.Flags)
 	if err != nil {
 		return nil, "harness-io"
 	}
@@ -236,6 +244,16 @@ func genC10(t *rapid.T) c10Case {
 	c := c10Case{F: f, Flags: rapid.IntRange(0, 15).Draw(t, "flags"), Backend: rapid.SampledFrom([]string{"memfs", "memfs", "memfs", "mapfs", "native"}).Draw(t, "backend")}
 	if rapid.IntRange(0, 3).Draw(t, "defaultflags") == 0 {
 		c.Flags = core.FlagDefault
+	}
+	if c.Backend == "native" && rapid.Bool().Draw(t, "links") {
+		for i := range w.Ents {
+			if rapid.IntRange(0, 2).Draw(t, fmt.Sprintf("linkcfg%d", i)) == 0 {
+				c.Links = append(c.Links, w.Ents[i].File)
+			}
+			if rapid.IntRange(0, 2).Draw(t, fmt.Sprintf("linkpem%d", i)) == 0 {
+				c.Links = append(c.Links, core.PemPath(w.Ents[i].File)) // takes effect once the artifact exists
+			}
+		}
 	}
 	c.Prime = rapid.IntRange(0, 2).Draw(t, "prime") != 0
 	if c.Prime {
@@ -431,6 +449,9 @@ func TestC10(t *testing.T) {
 		cls := []string{"outcome:" + kind, "backend:" + c.Backend, fmt.Sprintf("flags:%04b", c.Flags)}
 		for _, cl := range c.F.Imported {
 			cls = append(cls, "has:"+cl)
+		}
+		if len(c.Links) > 0 {
+			cls = append(cls, "native-with-symlinks")
 		}
 		r.Case(key, cls...)
 		r.Sample("backend:"+c.Backend, map[string]any{"configs": w.Texts(), "flags": c.Flags, "prime": c.Prime, "perturb": c.Perturb, "imported": c.F.Imported})
